@@ -75,6 +75,15 @@ def run(ck: Check, prog: Program) -> None:
         ck.finding('VERBATIM-CTOR', ctor.qualname, f'truthiness of {_n(s_.expr)} in {s_.context}', ctor.module.rel, s_.node.line,
                    f'`{_n(s_.node.ast)[:100]}`: {why}. A protocol error raised by a method with code 0 or message "" does not reach the '
                    f'caller with exactly its code and message')
+    # "parameters that do not bind → -32602 without running it": the binder is Signature.bind over the filtered signature of THIS method
+    from .c04 import _bind_strict
+    _bind_strict(ck, prog)
+    from .wire import ctor_precedence_problems as _cpp
+    _ci = prog.cls('pjrpc.common.exceptions.JsonRpcError')
+    _pp = _cpp(prog, _ci)
+    ck.ob('VERBATIM-CTOR', 'JsonRpcError.__init__: a given code / message wins over the class-level default', not _pp)
+    for _c, _m, _l in _pp:
+        ck.finding('VERBATIM-CTOR', _ci.qualname + '.__init__', _c, _ci.module.rel, _l, _m)
     # DATA-IFF-SET
     f = prog.func(EXC + '.JsonRpcError.to_json')
     ck.functions.add(f.qualname)
